@@ -45,6 +45,10 @@ def fmi (s : Stack) : List (Nat × Nat) := s.findMarks
 @[simp] theorem fmi_with_subLog (s : Stack) (x : List (Addr × Nat × List Eventgroup)) : fmi { s with subLog := x } = fmi s := rfl
 @[simp] theorem fmi_with_findLog (s : Stack) (x : List (Nat × Nat)) : fmi { s with findLog := x } = fmi s := rfl
 @[simp] theorem fmi_with_ansLog (s : Stack) (x : List (Nat × Addr × Nat × Nat)) : fmi { s with ansLog := x } = fmi s := rfl
+@[simp] theorem fmi_with_lisLog (s : Stack) (x : List (LId × Bool × SvcKey × Addr)) : fmi { s with lisLog := x } = fmi s := rfl
+@[simp] theorem fmi_logLis (s : Stack) (id : LId) (o : Bool) (k : SvcKey) (a : Addr) : fmi (s.logLis id o k a) = fmi s := rfl
+@[simp] theorem fmi_with_lisDup (s : Stack) (x : Bool) : fmi { s with lisDup := x } = fmi s := rfl
+@[simp] theorem fmi_markDup (s : Stack) (d : Bool) : fmi (s.markDup d) = fmi s := rfl
 @[simp] theorem fmi_logAnswer (s : Stack) (i : Nat) (a : Addr) (d : Nat) : fmi (s.logAnswer i a d) = fmi s := rfl
 @[simp] theorem fmi_with_offLog (s : Stack) (x : List (Nat × OEv × Nat)) : fmi { s with offLog := x } = fmi s := rfl
 @[simp] theorem fmi_logOffer (s : Stack) (i : Nat) (e : OEv) : fmi (s.logOffer i e) = fmi s := rfl
@@ -247,13 +251,13 @@ def fmi (s : Stack) : List (Nat × Nat) := s.findMarks
   rw [foldl_pres fmi _ (fun s p => by frame_cases)]
 
 @[simp] theorem fmi_watchService (s : Stack) (f : Service) (l : Listener) : fmi (s.watchService f l) = fmi s := by
-  unfold watchService; simp only []; rw [fmi_replay]; rfl
+  unfold watchService; simp only []; rw [fmi_markDup, fmi_replay]; rfl
 @[simp] theorem fmi_stopWatchService (s : Stack) (f : Service) (l : Listener) : fmi (s.stopWatchService f l) = fmi s := by
   unfold stopWatchService; simp only []; split
   · simp
   · rw [fmi_replay]; rfl
 @[simp] theorem fmi_watchAllServices (s : Stack) (id : LId) : fmi (s.watchAllServices id) = fmi s := by
-  unfold watchAllServices; rw [fmi_replay]; rfl
+  unfold watchAllServices; rw [fmi_markDup, fmi_replay]; rfl
 @[simp] theorem fmi_stopWatchAllServices (s : Stack) (id : LId) : fmi (s.stopWatchAllServices id) = fmi s := by
   unfold stopWatchAllServices; split
   · simp
